@@ -158,6 +158,11 @@ func migrateExpression(env envs.Environment, expression string, options *Migrate
 		return "", err
 	}
 
+	// was there a function call which couldn't be migrated? return that
+	if visitor.err != nil {
+		return "", visitor.err
+	}
+
 	// all is good, return our value
 	return value.(string), nil
 }
